@@ -5,6 +5,12 @@ sys.path.insert(0, os.path.dirname(os.path.abspath(__file__)))
 import manifest_data as md
 
 VERIF = os.path.dirname(os.path.dirname(os.path.abspath(__file__)))
+import glob, importlib
+for _f in sorted(glob.glob(os.path.join(os.path.dirname(os.path.abspath(__file__)), "fam_*.py"))):
+    _m = importlib.import_module(os.path.basename(_f)[:-3])
+    for pid, c in getattr(_m, "MANIFEST", {}).items():
+        md.CLAIMS[pid] = c
+        md.NOT_APPLICABLE.pop(pid, None)
 checks = []
 for pid in sorted(md.CLAIMS):
     c = md.CLAIMS[pid]
